@@ -154,6 +154,10 @@ def check_C08(run):
 
 def check_C07(run):
     run.model("ReaderDamage")
+    # vacuity: a reader that holds the callback's error back until the block's sync marker has been checked breaks AtEnd
+    v = V.run_tlc(run.scratch, "ReaderDamage", "ReaderDamage_defect", workers=8, timeout=900)
+    if "Invariant AtEnd is violated" not in v["out"]:
+        raise V.Infra("vacuity check failed: the ReaderDamage model accepts a callback error held back behind the sync check")
     out, meta = run.drive("C07")
     total, rejected, states, _ = V.judge(run.scratch, "Trace_Reader", out)
     cov = std_cov(run, meta, total, states,
